@@ -436,6 +436,26 @@ fn check_value_inner(li: &LanguageIdentifier, case: &Value, st: &mut Stats, mode
             }
         }
     }
+    // representation twin (G14): a present-but-empty variant list, reachable through the safe
+    // constructor from_raw_parts_unchecked (an empty list is "deduplicated and ordered"), serialises
+    // to the same canonical string, which reads back to a value that prints the same (== is not
+    // judged here: the pinned code distinguishes the two representations, see DESIGN 3.2 G14)
+    if li.variants().len() == 0 {
+        let twin = LanguageIdentifier::from_raw_parts_unchecked(li.language, li.script, li.region, Some(Box::new([])));
+        match guard(|| (serde_json::to_string(&twin).map_err(|e| e.to_string()), serde_json::to_value(&twin).map_err(|e| e.to_string()))) {
+            Err(p) => st.fail(format!("value:present-but-empty-variants:{}", panic_sig(&p)), case.clone(), size, format!("panicked: {p:?}")),
+            Ok((ts, tv)) => {
+                if ts.as_deref() != Ok(want.as_str()) || tv != Ok(Value::String(li.to_string())) {
+                    st.fail("value:present-but-empty-variants:not-the-canonical-string", case.clone(), size, format!("{li} built with Some([]) serialises to {ts:?} / {tv:?}, expected {want}"));
+                } else if let Ok(t) = &ts {
+                    match serde_json::from_str::<LanguageIdentifier>(t) {
+                        Ok(b) if b.to_string() == li.to_string() => {}
+                        other => st.fail("value:present-but-empty-variants:does-not-read-back", case.clone(), size, format!("{t} -> {:?}", other.map(|v| v.to_string()).map_err(|e| e.to_string()))),
+                    }
+                }
+            }
+        }
+    }
     for (name, b) in [("from_str", &back), ("from_value", &back_v)] {
         match b {
             Ok(b) if b == li && b.to_string() == li.to_string() => {}
